@@ -4,7 +4,7 @@ import ast
 
 from ..program import AnalysisError, walk_local, dotted
 from ..analysis import Spec, src, const_value
-from ..rules import (strip_wrappers, before, order_of, canon, cond_equiv, substitute_locals, string_template, GWF, EXC, mpt, need_func, stores_to, is_const, kw,
+from ..rules import (value_leaves, strip_wrappers, before, order_of, canon, cond_equiv, substitute_locals, string_template, GWF, EXC, mpt, need_func, stores_to, is_const, kw,
                      parent_map, raise_class, explicit_exits)
 from . import common, gitcmds
 from .c02 import _site_publishes
@@ -428,7 +428,8 @@ def delete_preconditions(prog, an, rep):
             if isinstance(n_, (ast.BinOp, ast.JoinedStr, ast.Call))
             for h in [(string_template(n_) or ('', []))[1]]
             if (string_template(n_) or ('',))[0] == 'git tag {}' and h}
-    at = [canon(f, v) for name in tagv for _, v in stores_to(f, name)
+    at = [canon(f, v) for name in tagv
+          for v in value_leaves(f, ast.Name(id=name, ctx=ast.Load()))
           if v is not None]
     rep.check(B + '.version' in at and any(
         'archived_hotfix_branch' in x for x in at), R, f.qname +
@@ -585,9 +586,13 @@ def rebuild_order(prog, an, rep):
         put = [x for x in ast.walk(lp) if isinstance(x, ast.Call) and
                isinstance(x.func, ast.Attribute) and
                x.func.attr == 'put_job']
+        # (the job may be built in a local first: compare what put_job
+        # receives once the locals are written out)
+        put_arg = canon(f, put[0].args[0]) if len(put) == 1 and \
+            put[0].args else ''
         ok = len(pj) == 1 and len(put) == 1 and \
-            'get_pull_request(%s)' % pid in src(pj[0]) and \
-            any(x is pj[0] for x in ast.walk(put[0])) and \
+            'get_pull_request(%s)' % pid in canon(f, pj[0]) and \
+            put_arg == canon(f, pj[0]) and \
             not any(isinstance(x, (ast.If, ast.Continue, ast.Break))
                     for x in ast.walk(lp))
         rep.evaluated()
